@@ -289,6 +289,11 @@ fn frag_lattice(rep: &Report, tier: Tier) {
 fn ext_lattice(rep: &Report, tier: Tier) {
     let mut ch = chains(if tier.thorough() { 3 } else { 2 });
     ch.push(vec![]); // 0 extensions: the ErrorNoExtensionFound path
+    // extensions so large that header + extensions alone exceed the maximum GSE length
+    for n in [4070usize, 4085, 4095, 5000] {
+        ch.push(vec![(0x0013, vec![0x7E; n])]);
+        ch.push(vec![(0x0101, vec![]), (0x0013, vec![0x7E; n])]);
+    }
     if tier.thorough() {
         // chains of 4: every chain whose first three letters come from a reduced alphabet
         for c in chains(4).into_iter().filter(|c| c.len() == 4 && c.iter().take(3).all(|e| matches!(e.0, 0x0101 | 0x0303 | 0x0011))) {
@@ -319,6 +324,9 @@ fn ext_lattice(rep: &Report, tier: Tier) {
                     let need = 2 + 2 + l.wire_len() + ext_wire + p.min(4200);
                     let mut bl: Vec<usize> = if p <= 7 { (0..=need + 3).collect() } else { (need.saturating_sub(12)..=need + 3).chain(0..=24).collect() };
                     bl.extend([4097, 4098, 70000]);
+                    if ext_wire > 4000 {
+                        bl = vec![0, 13, 100, 4097, 4100, 4200, 5100, 8192, 70000];
+                    }
                     for b in uniq(bl) {
                         for &pt in &pts {
                             let sent = SENTINELS[(b + p) % 2];
